@@ -45,8 +45,20 @@ func c18Key(r *gen.Rand, prevLong bool) []byte {
 func c18Program(r *gen.Rand, seen map[uintptr]int) (digests int, steps []string, bad string) {
 	sha256 := r.Bool()
 	var prevLong bool
+	// callers often keep ONE key buffer and overwrite it in place (e.g. an MD5 sum into a scratch slice)
+	shared := make([]byte, 0, 320)
+	reuseBuffer := r.Chance(1, 3)
 	for round := 1 + r.Intn(4); round > 0; round-- {
 		key := c18Key(r, prevLong)
+		if reuseBuffer {
+			if r.Bool() && len(shared) > 0 {
+				// same length as last time, different content
+				r.Fill(shared)
+			} else {
+				shared = append(shared[:0], key...)
+			}
+			key = shared
+		}
 		prevLong = len(key) > 64
 		var h hash.Hash
 		name := "sha1"
@@ -176,8 +188,17 @@ func c18(c *core.Ctx) {
 			rk := gen.Derive(c.Seed, uint64(i), uint64(k), 0xC18B)
 			go func(k int) {
 				defer wg.Done()
+				keyBuf := make([]byte, 0, 320)
 				for n := 0; n < 30; n++ {
 					key := c18Key(rk, n%2 == 0)
+					if k%2 == 0 { // half of the goroutines keep one key buffer and rewrite it in place
+						if n%3 == 1 && len(keyBuf) > 0 {
+							rk.Fill(keyBuf)
+						} else {
+							keyBuf = append(keyBuf[:0], key...)
+						}
+						key = keyBuf
+					}
 					m := new(stun.Message)
 					_ = m.Build(stun.BindingRequest, stun.NewTransactionIDSetter(rk.TID()), stun.Software(rk.Bytes(rk.Intn(60))))
 					pre := append([]byte(nil), m.Raw...)
